@@ -116,6 +116,8 @@ def model_request(kind, p):
         return ("cbldm", [p["k"], ids_of(p), p["vals"], 1 if tl > 0 else 0, d, 0 if p.get("d_float") else 1, -1])
     if kind == "numitems":
         return ("numitems", [p["keep"], p["k"], p["i"]])
+    if kind == "ckk_nodes":
+        return ("ckk_nodes", [1 if p.get("keep", True) else 0, p["k"], ids_of(p), p["vals"]])
     if kind == "bc_trace":
         return ("bc_trace", [1 if p.get("keep", True) else 0, p["C"], 200000, p["vals"]])
     if kind == "ilp_full":
@@ -187,6 +189,8 @@ def norm_model(kind, p, r):
         return {"num": r}
     if kind == "ilp_full":
         return {"form": r}
+    if kind == "ckk_nodes":
+        return {"num": r}
     if kind == "bc_trace":
         res, tr = r
         out = {"exc": res["err"]} if "err" in res else {"bins": res["ok"]}
@@ -242,6 +246,10 @@ def compare(kind, p, how, impl, model):
         return f"model error: {model['model_error']}"
     if kind == "ilp_full":
         return compare_ilp(p, impl, model)
+    if kind == "ckk_nodes":
+        if "exc" in impl:
+            return f"impl {short(impl, 120)} vs model {short(model, 120)}"
+        return None if impl.get("num") == model.get("num") else f"heaps popped by the CKK search: impl {impl.get('num')} vs model {model.get('num')}"
     if kind == "bc_trace":
         if impl.get("exc") != model.get("exc"):
             return f"impl {short(impl, 120)} vs model {short(model, 120)}"
